@@ -299,7 +299,7 @@ Labels(fr, Inc, p) ==
 (* Observation of another real run on the same history (DESIGN.md,         *)
 (* section 2: one abstract behaviour explains several real runs).          *)
 (* ln = [k, from, to, neg, status, acct, ex, fr, ins, outs, intras, tev,   *)
-(*       yr, bal, ppu, lab]: the run on the first k transactions, limited  *)
+(*       yr, bal, ppu, lab, sold]: the run on the first k transactions, limited  *)
 (* to the window from..to (local days), with / without "allow negative     *)
 (* balances"; status "ok" | "lots" | "balance" | "other"; the views the    *)
 (* run reported.  n = number of given transactions, m = prefix length of   *)
@@ -349,6 +349,7 @@ ObsFails(C, E, n, m, ls, ln) ==
               frN    == (IF k < m THEN {"C09.truncated_history_same_fractions"} ELSE {})
                         \cup (IF to # MaxDay /\ from = MinDay THEN {"C09.to_date_run_same_fractions"} ELSE {})
                         \cup (IF windowed THEN {"C10.window_shows_exactly_the_dated_fractions"} ELSE {})
+                        \cup (IF from # MinDay THEN {"C02.date_filter_does_not_change_lot_consumption"} ELSE {})
                         \cup (IF k = m /\ ~windowed THEN {"C17.same_input_same_fractions"} ELSE {})
               f1     == IF SetEq(ln.fr, expFr) THEN {} ELSE frN
               win(S) == {i \in S : InWin(E[i], from, to)}
@@ -378,7 +379,14 @@ ObsFails(C, E, n, m, ls, ln) ==
               f7     == IF (IF inAmt = 0 THEN ln.ppu[1] = 0 ELSE ln.ppu[1] * inAmt = ln.ppu[2] * inCost)
                         THEN {} ELSE {"C10.average_price_reflects_history_up_to_to_date"}
               expLab == {Labels(fr, FSall, q) : q \in FSwin}
-              f8     == IF SetEq(ln.lab, expLab) THEN {} ELSE {"C10.fraction_counts_reflect_history_up_to_to_date"}
+              labN   == (IF windowed THEN {"C10.fraction_counts_reflect_history_up_to_to_date"} ELSE {"C13.fraction_counts_k_of_n"})
+                        \cup (IF k < m \/ (to # MaxDay /\ from = MinDay) THEN {"C09.to_date_run_same_fraction_counts"} ELSE {})
+              f8     == IF SetEq(ln.lab, expLab) THEN {} ELSE labN
+              \* sold part of every lot shown: what the fractions shown took from it
+              expSold == {<<i, Sum({q \in FSwin : fr[q].lot = i}, LAMBDA q : fr[q].amt)>> : i \in win({j \in A : E[j].cls = "in"})}
+              soldN  == (IF windowed THEN {"C10.sold_part_counts_the_fractions_shown"} ELSE {"C15.sold_part_is_consumed_part_of_lot"})
+                        \cup (IF k < m \/ (to # MaxDay /\ from = MinDay) THEN {"C09.to_date_run_same_sold_part"} ELSE {})
+              f9     == IF SetEq(ln.sold, expSold) THEN {} ELSE soldN
               w      == {c[1] : c \in {cc \in {
                           <<"W.C06.summary_with_several_lines", Cardinality(expYr) >= 2>>,
                           <<"W.C06.line_summing_several_fractions", \E r \in expYr : \E q1, q2 \in FSall : q1 # q2 /\
@@ -390,7 +398,7 @@ ObsFails(C, E, n, m, ls, ln) ==
                           <<"W.C09.later_transactions_exist", (k < m \/ to # MaxDay) /\ Cardinality(FSall) < Len(fr) /\ FSall # {}>>,
                           <<"W.C10.window_hides_and_shows_fractions", windowed /\ FSwin # {} /\ Cardinality(FSwin) < Len(fr)>>,
                           <<"W.C10.from_date_hides_history_that_counts", from # MinDay /\ Cardinality(FSwin) < Cardinality(FSall)>> } : cc[2]}}
-              views  == f1 \cup f2 \cup f3 \cup f4 \cup f5 \cup f6 \cup f7 \cup f8
+              views  == f1 \cup f2 \cup f3 \cup f4 \cup f5 \cup f6 \cup f7 \cup f8 \cup f9
           IN f0 \cup w
              \cup (IF to # MaxDay /\ CutAmbiguous(E, A, to)
                    THEN (IF views # {} THEN {"K.C10.D8.to_date_cut_stops_at_first_entry_dated_past_the_bound"} ELSE {"W.C10.mixed_offsets_around_to_date"})
